@@ -207,7 +207,7 @@ def run(tier, seed):
         raise lib.MachineryError("generator produced too few channel instances")
     check_table(insts, viol, stats)
     # ---------------------------------------------------------------- circuits
-    cases = systematic_cases(insts, rng, tier) + random_cases(insts, rng, 160 if tier == "quick" else 2500, 3 if tier == "quick" else 4)
+    cases = systematic_cases(insts, rng, tier) + random_cases(insts, rng, 160 if tier == "quick" else 1500, 3 if tier == "quick" else 4)
     flat, owner = [], []
     for ci, c in enumerate(cases):
         if c.get("batch"):
